@@ -320,11 +320,11 @@ def crafted_triples(r, n, gennb):
 
 
 def _delete_vs_multi_field_edit(t):
-    """one side removed a base cell; the other side changed the source AND something else of a base cell"""
-    nb = len(_cells(t['b']))
+    """one side dropped a base cell (removed it, or replaced it by a cell the differ does not align with it: no cell with that
+    source is left); the other side changed the source AND something else of that base cell"""
     for d, e in (('l', 'r'), ('r', 'l')):
-        if len(_cells(t[d])) >= nb: continue
         for cb in _cells(t['b']):
+            if any(c.get('source') == cb.get('source') and c.get('cell_type') == cb.get('cell_type') for c in _cells(t[d])): continue
             for ce in _cells(t[e]):
                 if ce.get('cell_type') != cb.get('cell_type') or ce.get('source') == cb.get('source'): continue
                 if any(ce.get(k) != cb.get(k) for k in ('outputs', 'metadata', 'execution_count', 'attachments')):
@@ -396,15 +396,24 @@ def coq_opt(s):
     return 'None' if s is None else '(Some %s)' % coq_str(s)
 
 
-def run_cases_v(text, timeout=300):
-    """evaluate a generated cases file under coqc; returns (ok, output)"""
-    d = tempfile.mkdtemp(prefix='nbv_cases_')
-    try:
-        f = os.path.join(d, 'cases.v'); open(f, 'w').write(text)
-        p = subprocess.run(['timeout', str(timeout), 'coqc', '-Q', core.COQ, 'NB', f], capture_output=True, text=True, cwd=d)
-        return p.returncode == 0, p.stdout + p.stderr
-    finally:
-        shutil.rmtree(d, ignore_errors=True)
+def run_cases_v(text, timeout=300, rebuild=('Props/C03.vo', 'Props/C10.vo')):
+    """evaluate a generated cases file under coqc; returns (ok, output).  If another member's concurrent build left the
+    compiled closure momentarily inconsistent, the closure is rebuilt once and the evaluation retried."""
+    for attempt in (0, 1):
+        d = tempfile.mkdtemp(prefix='nbv_cases_')
+        try:
+            f = os.path.join(d, 'cases.v'); open(f, 'w').write(text)
+            p = subprocess.run(['timeout', str(timeout), 'coqc', '-Q', core.COQ, 'NB', f], capture_output=True, text=True, cwd=d)
+            out = p.stdout + p.stderr
+        finally:
+            shutil.rmtree(d, ignore_errors=True)
+        if p.returncode == 0: return True, out
+        if attempt == 0 and ('inconsistent assumptions' in out or 'Cannot find a physical path' in out or 'not found in loadpath' in out) and hasattr(core, 'build_targets'):
+            try: core.build_targets(list(rebuild))
+            except Exception: pass
+            continue
+        return False, out
+    return False, out
 
 
 def parse_nat_list(out):
